@@ -203,7 +203,7 @@ func vfAtEnd(prop, part string) {
 		{Kind: "setother", Actor: 1, Target: 2, Mode: "JRWPA"}, {Kind: "setpub", Actor: 0}, {Kind: "leave", Actor: 1},
 	}
 	nb := 0
-	for _, what := range []string{"unload", "delete"} {
+	for _, what := range []string{"unload", "delete", "deluser"} {
 		for _, op := range menu {
 			if what == "unload" && op.Kind == "leave" {
 				continue
@@ -216,12 +216,15 @@ func vfAtEnd(prop, part string) {
 				}
 				var injected bool
 				var sCode, opCode, after int
-				var diffs []string
+				var diffs, leftover []string
 				var exists bool
 				where := "afterwards"
 				res := vsched.Run(vsched.Config{MaxSteps: 4000000}, func() {
-					t := vfBuildTW(vfTWOpts{Users: 4, PreSub: []int{1, 2}, Admin: []int{1}})
-					if what == "unload" {
+					t := vfBuildTW(vfTWOpts{Users: 5, Root: true, PreSub: []int{1, 2}, Admin: []int{1}})
+					if what == "deluser" {
+						// u2 stays attached to the group and to its 'me' topic while root deletes the account
+						t.cl[2].Req(`{"sub":{"id":"$ID","topic":"me"}}`)
+					} else if what == "unload" {
 						for _, c := range t.cl {
 							if c.sess != nil && c.sess.getSub(t.grp) != nil {
 								c.Req(`{"leave":{"id":"$ID","topic":"%s"}}`, t.grp)
@@ -264,6 +267,8 @@ func vfAtEnd(prop, part string) {
 					if what == "unload" {
 						vsched.Advance(idleMasterTopicTimeout + 2*time.Second)
 						sCode = 200
+					} else if what == "deluser" {
+						sCode, _ = t.cl[4].Req(`{"del":{"id":"$ID","what":"user","user":"%s","hard":true}}`, t.users[2].id())
 					} else {
 						sCode, _ = t.cl[0].Req(`{"del":{"id":"$ID","topic":"%s","what":"topic","hard":true}}`, t.grp)
 					}
@@ -283,10 +288,31 @@ func vfAtEnd(prop, part string) {
 							}
 						}
 					}
+					if opCode == 0 && c.ended {
+						opCode = -1 // the server ended the connection of the deleted user: nothing more is owed
+					}
+					vsched.Quiesce()
+					// a session which the server has terminated (eviction notice without a topic) has lost its
+					// writer; the peer sees the connection die, i.e. the read side ends as well
+					for _, cl := range t.w.clients {
+						for _, f := range cl.frames {
+							if m := f.Msg; m != nil && m.Ctrl != nil && m.Ctrl.Code == 205 && m.Ctrl.Topic == "" && m.Ctrl.Id == "" && !cl.closed {
+								cl.Disconnect()
+							}
+						}
+					}
 					vsched.Quiesce()
 					s := t.snap()
 					exists = s.alive()
 					diffs = s.cacheVsStore()
+					if what == "deluser" && sCode >= 200 && sCode < 300 {
+						if ss, ok := s.live("u2"); ok {
+							leftover = append(leftover, "stored subscription "+ss.String())
+						}
+						if len(s.Attached["u2"]) > 0 {
+							leftover = append(leftover, fmt.Sprintf("attached sessions %v", s.Attached["u2"]))
+						}
+					}
 					if exists {
 						after, _ = t.cl[1].Req(`{"sub":{"id":"$ID","topic":"%s"}}`, t.grp)
 					}
@@ -315,7 +341,14 @@ func vfAtEnd(prop, part string) {
 					if i := strings.Index(d, ":"); i > 0 {
 						field = strings.Fields(d[:i])[0]
 					}
-					r.Violation("C08:cache-differs-from-store:during-"+what+":"+field+":"+op.Kind, fmt.Sprintf("%s (answered %d): %s", name, opCode, d), det)
+					key := "C08:cache-differs-from-store:during-" + what + ":" + field + ":" + op.Kind
+					if what == "deluser" && strings.HasSuffix(d, "not stored") {
+						key = "C08:cached-subscription-of-deleted-account"
+					}
+					r.Violation(key, fmt.Sprintf("%s (answered %d): %s", name, opCode, d), det)
+				}
+				for _, l := range leftover {
+					r.Violation("C14:deleted-user-left-behind:"+op.Kind, fmt.Sprintf("%s: the account was deleted (answer %d), yet the topic keeps %s", name, sCode, l), det)
 				}
 				if exists && (after == 0 || after >= 500) {
 					r.Violation("C14:topic-unusable:after-"+what+":"+op.Kind, fmt.Sprintf("%s: the topic exists, a member's {sub} afterwards is answered %d", name, after), det)
